@@ -29,11 +29,34 @@ REG = {
 }
 
 
+PLREG = [("https://rp.example.com/logout_cb", None), ("https://rp.example.com/logout2", {"foo": ["bar"]})]
+_lo = None
+
+
+def logout_world():
+    """one login of the web client: the session cookie and the ID token an RP-initiated logout refers to"""
+    global _lo
+    if _lo is None:
+        s = server()
+        out = opbase.authz(s, WEB, scope=("openid",), state="st")
+        # opbase.authz sends https://client_1.example.com/cb; this client registered other URIs
+        ep = s.get_endpoint("authorization")
+        req = AuthorizationRequest(client_id=WEB, redirect_uri=REG[WEB][0][0], scope=["openid"], state="st", response_type="code", nonce="nonce")
+        out = ep.process_request(ep.parse_request(req.to_dict()))
+        tep = s.get_endpoint("token")
+        pr = tep.parse_request(dict(client_id=WEB, client_secret=s.context.cdb[WEB]["client_secret"], redirect_uri=REG[WEB][0][0],
+                                    grant_type="authorization_code", code=out["response_args"]["code"]))
+        tok = tep.process_request(pr)
+        _lo = {"cookie": [c for c in out["cookie"] if c["name"] == s.context.cookie_handler.name["session"]], "id_token": tok["response_args"]["id_token"]}
+    return _lo
+
+
 def server():
     global _srv
     if _srv is None:
         _srv = opbase.make_op()
         ctx = _srv.context
+        ctx.cdb[WEB]["post_logout_redirect_uri"] = PLREG
         ctx.cdb[WEB]["redirect_uris"] = REG[WEB]
         ctx.cdb[NATIVE] = dict(ctx.cdb[WEB], client_id=NATIVE, redirect_uris=REG[NATIVE], application_type="native")
         ctx.keyjar.add_symmetric(NATIVE, ctx.cdb[NATIVE]["client_secret"])
@@ -111,7 +134,7 @@ def mutate(rng, uri, kind):
     if kind == "upper_host":
         return uri.replace(host, host.upper(), 1) if host else uri
     if kind == "no_scheme":
-        return uri.split(":", 1)[1]
+        return uri.split(":", 1)[1] if ":" in uri else uri
     if kind == "backslash":
         return uri.replace(host, "evil.com\\" + host, 1) if host else uri
     if kind == "at_trick":
@@ -149,6 +172,17 @@ def cases(rng, tier):
         for k in rng.sample(MUTS, 2):
             u = mutate(rng, u, k)
         out.append({"t": "uri", "client": cid, "uri": u, "kind": "combo"})
+    # RP-initiated logout: post_logout_redirect_uri mutated like a redirect_uri, hostile state
+    for entry in PLREG:
+        for kind in MUTS:
+            out.append({"t": "logout", "uri": mutate(rng, base_uri(entry), kind), "kind": kind, "state": rng.choice(STATES + [None])})
+        for st in STATES:
+            out.append({"t": "logout", "uri": base_uri(entry), "kind": "same", "state": st})
+    for _ in range(20 * n):
+        u = base_uri(rng.choice(PLREG))
+        for k in rng.sample(MUTS, 2):
+            u = mutate(rng, u, k)
+        out.append({"t": "logout", "uri": u, "kind": "combo", "state": rng.choice(STATES) if rng.random() < 0.7 else common.rnd_text(rng, 10)})
     for _ in range(60 * n):
         out.append({"t": "resp", "mode": rng.choice(["query", "fragment", "form_post", None]), "rt": rng.choice(["code", "code id_token", "id_token"]),
                     "state": rng.choice(STATES) if rng.random() < 0.8 else common.rnd_text(rng, 12), "reg": rng.randrange(2),
@@ -183,9 +217,36 @@ def _enc_parsed(v, q=None):
     return enc_list(l), enc_list(ql)
 
 
+def _logout(c):
+    import json as _json
+    import base64 as _b64
+    from idpyoidc.message.oidc.session import EndSessionRequest
+    s = server()
+    w = logout_world()
+    ep = s.get_endpoint("session")
+    args = {"id_token_hint": w["id_token"], "post_logout_redirect_uri": c["uri"]}
+    if c["state"] is not None:
+        args["state"] = c["state"]
+    try:
+        req = EndSessionRequest(**args)
+        req.verify(keyjar=s.context.keyjar, sigalg="")
+        out = ep.process_request(req, http_info={"cookie": w["cookie"]})
+    except Exception as e:
+        return {"r": "exc", "e": type(e).__name__}
+    loc = out.get("redirect_location") if isinstance(out, dict) else None
+    if not loc:
+        return {"r": "error", "e": str(out)[:60]}
+    sjwt = parse_qs(urlsplit(loc).query)["sjwt"][0]
+    p = sjwt.split(".")[1]
+    payload = _json.loads(_b64.urlsafe_b64decode(p + "=" * (-len(p) % 4)))
+    return {"r": "ok", "uri": c["uri"], "target": payload["redirect_uri"], "first_hop": loc.split("?")[0], "payload_state": payload.get("state")}
+
+
 def impl(c):
     s = server()
     ep = s.get_endpoint("authorization")
+    if c["t"] == "logout":
+        return _logout(c)
     if c["t"] == "uri":
         req = AuthorizationRequest(client_id=c["client"], redirect_uri=c["uri"], scope=["openid"], state="st", response_type="code", nonce="n")
         try:
@@ -225,8 +286,32 @@ def impl(c):
     return o
 
 
+def _verify_line(uri, native, reg):
+    v = _parsed_view(uri)
+    if v is None:
+        return None
+    args = ["redir", "verify", "1" if native else "0", "1"] + list(_enc_parsed(v))
+    for b, q in reg:
+        o = urlparse(b)._replace(query=None)
+        rv = {"clean": True, "scheme": o.scheme, "netloc": o.netloc, "path": o.path, "params": o.params, "fragment": o.fragment,
+              "host": o.hostname, "port_ok": True, "has_port": bool(o.port), "query": q or {}}
+        args += list(_enc_parsed(rv))
+    return "\t".join(args)
+
+
 def model_lines(c, obs):
     s = server()
+    if c["t"] == "logout":
+        if c["uri"] == "":
+            return []
+        l = _verify_line(c["uri"], False, PLREG)
+        if l is None:
+            return []
+        lines = [l]
+        if obs["r"] == "ok":
+            ps = [] if c["state"] is None else ["state", c["state"].encode().decode("latin-1")]
+            lines.append("\t".join(["redir", "deliver", "query", enc_str(c["uri"]), enc_list(ps)]))
+        return lines
     if c["t"] == "uri":
         if c["uri"] == "":
             return []          # a blank value is not stored in the request at all: the "missing redirect_uri" path, not verify_uri
@@ -257,6 +342,17 @@ def model_lines(c, obs):
 
 
 def compare(c, obs, outs):
+    if c["t"] == "logout":
+        if not outs:
+            if c["uri"] == "":      # no post_logout_redirect_uri at all: the provider's own page, no state
+                return [] if obs["r"] == "ok" and obs["target"] == "https://example.com/post_logout" else [f"blank post_logout_redirect_uri: {obs}"]
+            return [] if obs["r"] != "ok" else [f"the decoded value is not parseable but the endpoint answered {obs}"]
+        want = {"ok": "ok", "uriError": "exc", "redirectError": "exc"}[outs[0]]
+        if want != obs["r"]:
+            return [f"verdict: model={outs[0]} impl={obs}"]
+        if obs["r"] == "ok" and len(outs) > 1 and dec_str(outs[1]) != obs["target"]:
+            return [f"post-logout target: model={dec_str(outs[1])!r} impl={obs['target']!r}"]
+        return []
     if c["t"] == "uri":
         if not outs and c["uri"] == "":
             return []
@@ -299,8 +395,35 @@ class _FormParser(html.parser.HTMLParser):
                 self.tags.append("input+" + ",".join(sorted(extra)))
 
 
+def _registered(dec, reg, native=False):
+    got = rfc_parts(dec)
+    for b, q in reg:
+        r = rfc_parts(b)
+        if got["scheme"] == r["scheme"] and got["authority"] == r["authority"] and got["path"] == r["path"] and got["fragment"] is None \
+                and parse_qs(got["query"] or "", keep_blank_values=True) == (q or {}):
+            return (b, q)
+    return None
+
+
 def oracle(c, obs):
     v = []
+    if c["t"] == "logout":
+        if obs["r"] != "ok" or c["uri"] == "":       # a blank value is no post_logout_redirect_uri at all: the provider's own page
+            return v
+        if obs["first_hop"] != "https://example.com/verify_logout":
+            v.append({"cls": "logout-first-hop-not-the-provider"})
+        reg = _registered(unquote(c["uri"]), PLREG)
+        if reg is None:
+            v.append({"cls": "accepted-unregistered", "kind": c["kind"], "uri": c["uri"], "which": "post_logout_redirect_uri"})
+            return v
+        # where the user agent ends up: the URI the client sent plus exactly the state it sent, nothing else
+        t = rfc_parts(obs["target"])
+        sent = rfc_parts(c["uri"])
+        want_q = parse_qsl(sent["query"] or "", keep_blank_values=True) + ([("state", c["state"])] if c["state"] is not None else [])
+        got_q = parse_qsl(t["query"] or "", keep_blank_values=True)
+        if (t["scheme"], t["authority"], t["path"]) != (sent["scheme"], sent["authority"], sent["path"]) or t["fragment"] is not None or got_q != want_q:
+            v.append({"cls": "post-logout-target-altered", "has_query": bool(reg[1]), "want": want_q, "got": got_q, "fragment": t["fragment"]})
+        return v
     if c["t"] == "uri":
         if obs["r"] == "error" and obs.get("redirected"):
             v.append({"cls": "mismatch-redirects"})
@@ -365,10 +488,14 @@ def known_key(c, v, known):
 def classify(c, obs):
     if c["t"] == "uri":
         return f"uri:{c['client']}:{obs['r']}"
+    if c["t"] == "logout":
+        return f"logout:{obs['r']}"
     return f"resp:{obs.get('kind')}:{obs['r']}"
 
 
 def nontrivial(c, obs):
     if c["t"] == "uri":
         return c["kind"] != "same"
-    return any(ch in c["state"] for ch in "<>\"'&#= +%é\n")
+    if c["t"] == "logout" and c["kind"] != "same":
+        return True
+    return any(ch in (c["state"] or "") for ch in "<>\"'&#= +%é\n")
